@@ -58,6 +58,37 @@ def mk(rng, g, depth, nrows, mode, position, kinds=("num", "case", "str", "pred"
     return sc
 
 
+def lazycase_scen(rng, mode):
+    """searched CASE: the first true branch decides, and the conditions AFTER it are not consulted - they may refer to a column the row
+    lacks or order a text against a number. (A condition that cannot be evaluated BEFORE the true branch is the recorded deviation
+    CaseNullOperandPoisons: rows are built so that this does not happen.)"""
+    lit1 = rng.choice([0, 1, 2])
+    op2 = rng.choice([">", "<", ">=", "<="])
+    whens = [{"c": {"t": "cmp", "op": ">", "a": exprgen.col("y"), "b": exprgen.num(lit1)}, "r": exprgen.num(10)},
+             {"c": {"t": "cmp", "op": op2, "a": exprgen.col("x"), "b": exprgen.num(rng.choice([1, 2, 3]))}, "r": exprgen.num(20)}]
+    if rng.random() < 0.4:
+        whens.append({"c": {"t": "cmp", "op": ">", "a": exprgen.col("x"), "b": exprgen.num(5)}, "r": exprgen.strlit("big")})
+    e = {"t": "case", "whens": whens}
+    if rng.random() < 0.7: e["else"] = exprgen.num(30)
+    rows = []
+    for i in range(rng.choice([4, 6, 8])):
+        y = rng.choice([0, 1, 2, 3, 5])
+        row = {"id": i + 1, "y": y}
+        if y > lit1:            # first branch true: what x holds must not matter
+            k = rng.random()
+            if k < 0.4: pass
+            elif k < 0.6: row["x"] = rng.choice(["abc", "txt"])
+            else: row["x"] = rng.choice([0, 2, 4, 9])
+        else:
+            row["x"] = rng.choice([0, 1, 2, 3, 4, 9])
+        rows.append(row)
+    sel = [{"al": "r0", "e": e}]
+    sc = {"meta": {"fam": "direct", "star": 0, "chan": 0, "sel": sel, "profile": "case_lazy"}, "sql": "SELECT id, %s AS r0 FROM stream" % sql(e), "rows": rows}
+    sc["meta"]["sel"] = [{"al": "id", "e": exprgen.col("id")}] + sel
+    if mode == "sync": sc["mode"] = "sync"
+    return sc
+
+
 PROFILES = [  # (name, generator flags, positions, select-item kinds, share)   -- the envelope in which the engine follows SQL semantics on the unchanged tree;
              #  everything deliberately outside it is a recorded finding with a pinned input (KNOWN_FINDINGS.json)
     ("arith", dict(cases=False, nots=False, explicit_null=False), ["select"], ("num",), 0.12),
@@ -104,6 +135,8 @@ def run(tier):
         if i % 2:
             sc["mode"] = "sync"
         scen.append(sc)
+    for i in range(int(n * 0.04)):
+        scen.append(lazycase_scen(rng, "sync" if i % 2 else "emit"))
     seqfam.run_scenarios(res, scen, "TraceDirect", tag="expr", relayout_p=0.3, retype_p=0.3, rename_p=0.3)
     seqfam.run_pinned(res, "TraceDirect")
     nerr = sum(1 for w, _ in res.violations if w.startswith("engine_execerr"))
